@@ -127,11 +127,15 @@ impl<'r> Emitter<'r> {
 
     pub fn newline(&mut self) {
         let style = if self.cfg.newline == 3 { self.rng.below(3) as u8 } else { self.cfg.newline };
-        let s = match style {
+        let mut s = match style {
             0 => "\n",
             1 => "\r\n",
             _ => "\r",
         };
+        // a lone CR followed by a line starting with LF would read as one CRLF terminator
+        if self.out.last() == Some(&b'\r') && s.starts_with('\n') {
+            s = "\r";
+        }
         self.tok(s);
     }
 
@@ -193,7 +197,7 @@ impl<'r> Emitter<'r> {
             }
             let n = self.rng.range(1, 2);
             s.push_str(&self.digits(n));
-        } else if self.rng.chance(1, 30) {
+        } else if self.rng.chance(1, 200) {
             s.push_str("e400"); // overflows to INF
         }
         if self.rng.chance(1, 3) {
